@@ -784,6 +784,58 @@ theorem asis_pole_branch_wrong_meridian (pi lat0 lat1 latp : K) (hpi : 0 < pi)
 end AsIs
 
 
+/-! ## Purity: the primitives are functions of the values (call sequences on one arc object) -/
+section Session
+variable {K : Type} [Field K] [LinearOrder K] [IsStrictOrderedRing K]
+
+/-- the answers depend only on the values handed in (`*_congr`) -/
+theorem onArc_congr {a b p a' b' p' : V3 K} (ha : a = a') (hb : b = b') (hp : p = p') :
+    OnArc a b p ↔ OnArc a' b' p' := by subst ha hb hp; exact Iff.rfl
+
+theorem intersections_congr {a b c d a' b' c' d' : V3 K} (ha : a = a') (hb : b = b')
+    (hc : c = c') (hd : d = d') : intersections a b c d = intersections a' b' c' d' := by
+  subst ha hb hc hd; rfl
+
+theorem extreme_congr {a b a' b' : V3 K} (ha : a = a') (hb : b = b') :
+    extremeMax a b = extremeMax a' b' ∧ extremeMin a b = extremeMin a' b' := by
+  subst ha hb; exact ⟨rfl, rfl⟩
+
+/-- **no history of calls changes the arc object** -/
+theorem session_state_const (s : Arc K) (ops : List (Op K)) : (runSession s ops).1 = s := by
+  unfold runSession
+  induction ops generalizing s with
+  | nil => rfl
+  | cons op ops ih => simp only [runWith, step]; exact ih s
+
+/-- **history independence: in EVERY sequence of calls on a shared arc object, every answer is
+    the answer on the original values** (whatever was called before, in whatever order). -/
+theorem session_answers (s : Arc K) (ops : List (Op K)) :
+    (runSession s ops).2 = ops.map (answer s.1 s.2) := by
+  unfold runSession
+  induction ops generalizing s with
+  | nil => rfl
+  | cons op ops ih => simp only [runWith, step, List.map_cons]; rw [ih s]
+
+/-- the answer to a call does not depend on what preceded it -/
+theorem session_prefix_irrelevant (s : Arc K) (pre : List (Op K)) (op : Op K) :
+    (runSession s (pre ++ [op])).2.getLast? = some (answer s.1 s.2 op) := by
+  rw [session_answers]; simp
+
+/-- the general loop agrees with the pure one for ANY step function that returns its state
+    unchanged and answers from the values – this is the clause the harness checks on the
+    implementation (bytes of every argument unchanged, answers equal to those on a fresh copy) -/
+theorem runWith_pure (st : Arc K → Op K → Arc K × Ans K)
+    (hstate : ∀ s op, (st s op).1 = s) (hans : ∀ s op, (st s op).2 = answer s.1 s.2 op)
+    (s : Arc K) (ops : List (Op K)) : runWith st s ops = (s, ops.map (answer s.1 s.2)) := by
+  induction ops generalizing s with
+  | nil => rfl
+  | cons op ops ih =>
+    simp only [runWith, List.map_cons]
+    rw [hstate s op, ih s, hans s op]
+
+end Session
+
+
 /-! ## The regenerated tolerance constants (translator tie)
 
   The harness judges only inputs whose exact margin is ≥ 1e-6 rad and accepts returned points up
@@ -841,6 +893,20 @@ example : ValidArc (v 1 0 0) (v (-4) 0 (-3)) ∧ ¬ OnArc (v 1 0 0) (v (-4) 0 (-
   decide +kernel
 example : ValidArc (v 3 0 4) (v (-4) 0 3) ∧ ¬ OnArc (v 3 0 4) (v (-4) 0 3) (v 4 0 3) := by decide +kernel
 example : asIsPoleBranch (4 : Rat) 0 0 4 (-1) 4 1 = true := by decide +kernel
+
+-- purity is not vacuous: a step that leaves the interior chord point in the first end point's slot
+-- (the shape of an in-place `node3 = n1; node3 += d*(n2-n1)`) answers 'max' correctly, and the
+-- next call on the same object – is the original first end point on the arc? – answers for a
+-- truncated arc
+example : codeInterior (u 3 0 4 5) (u 0 4 3 5) ∧
+    (runWith stepOverwrite (u 3 0 4 5, u 0 4 3 5) [.extMax]).2 =
+      (runSession (u 3 0 4 5, u 0 4 3 5) [.extMax]).2 ∧
+    (runWith stepOverwrite (u 3 0 4 5, u 0 4 3 5) [.extMax, .within (u 3 0 4 5)]).2.getLast?
+      = some (.bool false) ∧
+    (runSession (u 3 0 4 5, u 0 4 3 5) [.extMax, .within (u 3 0 4 5)]).2.getLast?
+      = some (.bool true) := by decide +kernel
+example : (runSession (u 3 0 4 5, u 0 3 4 5) [.extMax, .within (v 1 1 2), .extMin]).1
+    = (u 3 0 4 5, u 0 3 4 5) := session_state_const _ _
 
 end Examples
 
